@@ -1,0 +1,18 @@
+//go:build verif
+
+// Constructive access for the /verif harness. Add-only: not compiled without the
+// `verif` build tag.
+
+package face
+
+import "net"
+
+// VerifNewStreamFaceOnConn returns a StreamFace that is already "open" on the given
+// connection (what Open does after net.Dial succeeded, minus starting the goroutine):
+// the caller sets the callbacks and calls Run itself.
+func VerifNewStreamFaceOnConn(conn net.Conn, local bool) *StreamFace {
+	f := NewStreamFace("verif", "verif", local)
+	f.conn = conn
+	f.running.Store(true)
+	return f
+}
